@@ -38,7 +38,7 @@ def state_value(rng, key):
 
 
 def rand_ssc(rng):
-    props = [["VERSION", "0.83"], ["TITLE", G.rand_value(rng)], ["OFFSET", "0.000"], ["BPMS", "0.000=120.000"], ["STOPS", ""]]
+    props = [["VERSION", rng.choice(["0.83", "0.83", "0.83", "0.7", "0.69", "0.5", "0", " 0.3\n", "1.0", "x"])], ["TITLE", G.rand_value(rng)], ["OFFSET", "0.000"], ["BPMS", "0.000=120.000"], ["STOPS", ""]]
     if rng.random() < 0.3:
         props = props[1:]
     for pt, keys in SF_INVALID.items():
